@@ -183,6 +183,9 @@ def expected(I, before, msg, qd, qv, qe):
                 raw = ch.fields["value"]
                 rt = I.to_term(raw)
                 payload = z3.If(is_none(rt), z3.StringVal(""), get_s(rt))
+                # a payload that cannot be decoded leaves the element as it was (and must not stop the client); the declared size is
+                # not the mirror's business (for compressed formats it is the uncompressed length)
+                hit = z3.And(hit, b64valid(payload))
                 nv = z3.If(hit, VBytes(b64dec(payload)), nv)
                 nf = z3.If(hit, I.to_term(ch.fields["format"]), nf)
             else:
@@ -250,13 +253,7 @@ def task_c15(msg_kind, vkind, nchildren, first_kind="Text"):
         run.explorer.witness = c15_witness(I, {"msg_kind": msg_kind, "vkind": vkind, "nchildren": nchildren})
         if msg_kind == "set" and vkind == "BLOB":
             run.assume(z3.And(b64dec(z3.StringVal("")) == z3.StringVal(""), b64valid(z3.StringVal(""))))
-            # the statement's stream is well-formed: payloads are base64 (possibly empty or absent) and the declared size is the payload's
-            for ch in msg.fields["children"]:
-                rt = ch.fields["value"].term
-                payload = z3.If(is_none(rt), z3.StringVal(""), get_s(rt))
-                run.assume(b64valid(payload))
-                from pyvc.numparse import int_ok, int_val
-                run.assume(z3.And(int_ok(get_s(ch.fields["size"].term)), int_val(get_s(ch.fields["size"].term)) == z3.Length(b64dec(payload))))
+            # ANY payload text and ANY size text: a foreign server may send damaged base64, compressed BLOBs (size = uncompressed length), junk
         run.cover("cover[%s]" % label)
         try:
             I.call(pm, [msg], {})
@@ -515,7 +512,17 @@ def task_c16_chain(vkind, nchildren):
         run.oblige("C16|chain[def %s]/definition-raises-initial-value-and-state-and-definition-events" % vkind,
                    z3.BoolVal(sorted(e.cls.name for e in events) == sorted(["ValueUpdate"] * len(els) + ["StateUpdate", "DefinitionUpdate"])))
         del events[:]
-        before = {id(e): I.to_term(e.fields["_value"]) for e in els}
+        def content(v):
+            """a value as the statement compares it: BLOB values by payload and format, everything else by the value itself"""
+            if isinstance(v, IObject) and "binary" in v.fields:
+                return ("blob", I.to_term(v.fields["binary"]), I.to_term(v.fields["format"]))
+            return ("plain", I.to_term(v))
+
+        def same(a, b):
+            if a[0] != b[0]:
+                return z3.BoolVal(False)
+            return z3.And(*[x == y for x, y in zip(a[1:], b[1:])])
+        before = {id(e): content(e.fields["_value"]) for e in els}
         state0 = I.to_term(vec.fields["state"])
         msg = make_set(I, vkind, "m", d1, v1, nchildren)
         try:
@@ -526,11 +533,11 @@ def task_c16_chain(vkind, nchildren):
             evs = [e for e in events if e.cls.name == "ValueUpdate" and e.fields["element"] is el]
             cur = before[id(el)]
             for n_, e in enumerate(evs):
-                run.oblige("C16|chain[%s]/event-old-value-is-the-previous-value" % label, I.to_term(e.fields["old_value"]) == cur)
-                run.oblige("C16|chain[%s]/an-event-means-the-value-changed" % label, I.to_term(e.fields["new_value"]) != cur)
-                cur = I.to_term(e.fields["new_value"])
+                run.oblige("C16|chain[%s]/event-old-value-is-the-previous-value" % label, same(content(e.fields["old_value"]), cur))
+                run.oblige("C16|chain[%s]/an-event-means-the-value-changed" % label, z3.Not(same(content(e.fields["new_value"]), cur)))
+                cur = content(e.fields["new_value"])
             run.oblige("C16|chain[%s]/last-event-new-value-is-the-current-value(no-event-means-unchanged)" % label,
-                       I.to_term(el.fields["_value"]) == cur)
+                       same(content(el.fields["_value"]), cur))
         sevs = [e for e in events if e.cls.name == "StateUpdate"]
         cur = state0
         for e in sevs:
